@@ -486,6 +486,8 @@ def run_native_once(oid, case_idx, inputs=None, seed=None):
     case = ob.cases[case_idx]
     rng = random.Random(seed) if seed is not None else None
     w = NativeWorld(case, inputs, rng)
+    if seed is not None:
+        w.used['_seed'] = seed
     try:
         ob.fn(w, **case)
     except Skip:
